@@ -361,8 +361,14 @@ func regionOf(o opts, rows [][]val) string {
 		return "value_contains_escape"
 	case anyv(has(o.enc)):
 		return "value_contains_enclosure"
-	case anyv(has(o.ft)):
-		return "value_contains_field_terminator"
+	}
+	for _, r := range rows {
+		for _, v := range r {
+			enclosed := o.enc != "" && (v.text || !o.encOpt)
+			if !v.null && !enclosed && strings.IndexByte(v.s, o.ft[0]) >= 0 {
+				return "value_contains_field_terminator"
+			}
+		}
 	}
 	return "-"
 }
@@ -434,22 +440,22 @@ func (r *runner) roundTrip(o opts, kinds []bool, rows [][]val) {
 	defer os.Remove(f)
 	before := r.e.Query(r.ctx, "SELECT * FROM s")
 	exp := r.e.Query(r.ctx, "SELECT * FROM s INTO OUTFILE "+sqlStr(f)+o.clause())
-	var obs string
+	var fobs, tobs string
 	if exp.Class() != "ok" {
-		obs = "export:" + exp.Class()
+		fobs, tobs = "export:"+exp.Class(), "export:"+exp.Class()
 	} else {
 		data, err := os.ReadFile(f)
 		if err != nil {
 			panic(err)
 		}
 		ld := r.e.Query(r.ctx, "LOAD DATA INFILE "+sqlStr(f)+" INTO TABLE g"+o.clause())
-		tobs := ld.Class()
+		tobs = ld.Class()
 		if tobs == "ok" {
 			tobs = tableObs(r.e.Query(r.ctx, "SELECT * FROM g"))
 		}
-		obs = "f=" + hx.Hex(data) + " t=" + tobs
+		fobs, tobs = "f="+hx.Hex(data), "t="+tobs
 	}
-	payload := hx.List("rt", o.sexp(), strconv.Itoa(len(kinds)), hx.List(append([]string{"rows"}, rowsSexp(rows)...)...))
+	rowsS := hx.List(append([]string{"rows"}, rowsSexp(rows)...)...)
 	nontriv := false
 	for _, row := range rows {
 		for _, v := range row {
@@ -458,7 +464,9 @@ func (r *runner) roundTrip(o opts, kinds []bool, rows [][]val) {
 			}
 		}
 	}
-	id := r.out.Case(payload, obs, nontriv && o.wf())
+	// two protocol cases: the writer alone (file bytes; no Spec), then the round trip (table; Spec = the rows)
+	r.out.Case(hx.List("wr", o.sexp(), rowsS), fobs, false)
+	id := r.out.Case(hx.List("rt", o.sexp(), strconv.Itoa(len(kinds)), rowsS), tobs, nontriv && o.wf())
 	reg := regionOf(o, rows)
 	r.out.Stat("rt")
 	if o.wf() {
@@ -669,9 +677,9 @@ func run(a hx.RunArgs) error {
 		r.typed(t[0], t[1], t[2])
 	}
 
-	nRT, nRD := 700, 300
+	nRT, nRD := 5000, 2000
 	if a.Thorough {
-		nRT, nRD = 40000, 15000
+		nRT, nRD = 150000, 50000
 	}
 	for i := 0; i < nRT; i++ {
 		o := genOpts(rnd)
